@@ -479,13 +479,9 @@ impl ZonedDateTime {
         // A record that lacks a required date field is a TypeError, whatever else is wrong with it.
         let calendar = partial.date.calendar.clone();
         let date = PlainDate::from_partial(partial.date, Some(overflow))?.iso;
-        // Without time fields the date stands for its start of day, unless an offset has to be
-        // interpreted together with a wall-clock time: then the time is midnight.
-        let time = if !partial.time.is_empty() || partial.offset.is_some() {
-            Some(IsoTime::default().with(partial.time, overflow)?)
-        } else {
-            None
-        };
+        // InterpretTemporalDateTimeFields: absent time fields are zero, so a record without
+        // them means the wall-clock time 00:00 (start-of-day belongs to date-only strings).
+        let time = Some(IsoTime::default().with(partial.time, overflow)?);
 
         // Handle time zones
         let offset_nanos = partial
